@@ -80,6 +80,13 @@ func init() {
 			},
 		}
 	})
+	// the inbound messages arrive right after the CONNACK: the read routine owes
+	// acknowledgements while the writers are still at work
+	register("wedgeburst", func() *Scenario {
+		s := scenarios["wedge"]()
+		s.Burst = true
+		return s
+	})
 	register("reqresp", func() *Scenario {
 		return &Scenario{
 			Config:   baseConfig(),
